@@ -207,7 +207,7 @@ def model_op(op, cells, fixer_kind="strict"):
 # --------------------------------------------------------------------------- generators
 
 TEXT_ALPHA = ["a", "b", "Z", "é", " ", " ", "-", "n", "N", "a", "1", "0", ".", "*", ":", "_", "x", "µ", "\t"]
-NAME_ALPHA = ["a", "b", "c", "é", "_", "1", "x", " ", "-", "T"]
+NAME_ALPHA = ["a", "b", "c", "é", "_", "1", "x", " ", "-", "T", "e\u0301", "\u00e9", "\uff21"]
 UNITS_NUM = ["-", "m", "kg", "mm", "°C", "m/s", "1/s", "%", "N m", "Text", "ONOFF"]
 NUM_SPELL = ["0", "1", "-1", "1.5", "-0.0", "1e3", "1E-3", ".5", "5.", "+2", "1_000", "inf", "-inf", "Infinity",
              "1e400", "0x10", "1,5", "１２", "nan", "NaN", "-", " - ", " NAN ", "+nan", "-nan", "", " ", "abc", "1 2",
